@@ -374,6 +374,11 @@ pub fn validate_multiline_text(
                 ),
             });
         }
+        if line.is_empty() {
+            return Err(ParseError::InvalidFormat {
+                message: format!("{} line {} is empty", field_name, i + 1),
+            });
+        }
         parse_swift_chars(line, &format!("{} line {}", field_name, i + 1))?;
         result.push(line.to_string());
     }
